@@ -13,7 +13,10 @@ import (
 )
 
 func forceDeleteVolumeSectors(tx *txn, volumeID int64) (removed, lost int64, err error) {
-	const query = `DELETE FROM volume_sectors WHERE id IN (SELECT id FROM volume_sectors WHERE volume_id=$1 LIMIT $2) RETURNING sector_id IS NULL AS empty`
+	// remove the highest indices first: an interrupted removal leaves the
+	// slots 0..total_sectors-1, which is what growVolume and ShrinkVolume
+	// assume
+	const query = `DELETE FROM volume_sectors WHERE id IN (SELECT id FROM volume_sectors WHERE volume_id=$1 ORDER BY volume_index DESC LIMIT $2) RETURNING sector_id IS NULL AS empty`
 
 	rows, err := tx.Query(query, volumeID, sqlSectorBatchSize)
 	if err != nil {
@@ -46,7 +49,8 @@ func deleteVolumeSectors(tx *txn, volumeID int64) (removed int64, err error) {
 		return 0, storage.ErrVolumeNotEmpty
 	}
 
-	const query = `DELETE FROM volume_sectors WHERE id IN (SELECT id FROM volume_sectors WHERE volume_id=$1 AND sector_id IS NULL LIMIT $2)`
+	// highest indices first, see forceDeleteVolumeSectors
+	const query = `DELETE FROM volume_sectors WHERE id IN (SELECT id FROM volume_sectors WHERE volume_id=$1 AND sector_id IS NULL ORDER BY volume_index DESC LIMIT $2)`
 	res, err := tx.Exec(query, volumeID, sqlSectorBatchSize)
 	if err != nil {
 		return 0, fmt.Errorf("failed to remove volume sectors: %w", err)
